@@ -467,6 +467,8 @@ def trait(d, pool):
         return List(trait(d[1], pool), minlen=d[2], maxlen=d[3])
     if k == "DDict":
         return Dict(trait(d[1], pool), trait(d[2], pool))
+    if k == "DEnumDyn":        # Enum(values='<name>'): the collection is another trait of the same class
+        return Enum(values=ATTR_NAME[d[1]])
     if k == "DRangeDyn":       # Range(low='<name>', high='<name>'): the bounds are other traits of the same class
         return Range(low=ATTR_NAME[d[1]], high=ATTR_NAME[d[2]], exclude_low=bool(d[3] & 1), exclude_high=bool(d[3] & 2))
     if k == "DArray":
